@@ -41,7 +41,13 @@ pub fn main_table(args: &[String]) {
             let m = Message::from_bytes(&hdr).ok().map(|m| (m.class(), m.method()));
             let m2 = Message::from_bytes(&hdr).ok().map(|m| (m.get_type().class(), m.get_type().method()));
             let preds = Message::from_bytes(&hdr).ok().map_or(true, |m| m.has_method(m.method()) && m.has_class(m.class()));
-            a == t2 && a == h && a == m && a == m2 && preds
+            // the field as it arrives: at the front of a longer slice (a header, a datagram)
+            let a3 = MessageType::from_bytes(&hdr[..3]).ok().map(|t| (t.class(), t.method()));
+            let a20 = MessageType::from_bytes(&hdr).ok().map(|t| (t.class(), t.method()));
+            let t20 = MessageType::try_from(&hdr[..]).ok().map(|t| (t.class(), t.method()));
+            let kind = |r: Result<MessageType, StunParseError>| match r { Ok(_) => 0, Err(StunParseError::NotStun) => 1, Err(_) => 2 };
+            let same_refusal = kind(MessageType::from_bytes(&b)) == kind(MessageType::from_bytes(&hdr));
+            a == t2 && a == h && a == m && a == m2 && preds && a == a3 && a == a20 && a == t20 && same_refusal
         }).unwrap_or(false);
         let j = match r {
             Err(_) => json!({"k": "dec", "f": f, "ok": false, "err": "panic"}),
@@ -133,8 +139,22 @@ fn tid_records(out: &mut impl Write, seed: u64) {
         // (a failure must not look like any id: an empty byte string, which no 96-bit id equals)
         let parsed: Option<u128> = Message::from_bytes(&hdr).ok().map(|m| m.transaction_id().into());
         let hparsed: Option<u128> = MessageHeader::from_bytes(&hdr).ok().map(|m| m.transaction_id().into());
+        // every object that carries the id reports the same 96-bit value: the builder itself, the parsed message, and the
+        // response builders derived from the parsed message (as integers and as TransactionId values)
+        let routes: Vec<u128> = std::panic::catch_unwind(|| {
+            let mut v: Vec<TransactionId> = vec![Message::builder(MessageType::from_class_method(MessageClass::Request, BINDING), tid).transaction_id()];
+            if let Ok(m) = Message::from_bytes(&hdr) {
+                v.push(m.transaction_id());
+                v.push(Message::builder_success(&m).transaction_id());
+                v.push(Message::builder_error(&m).transaction_id());
+                v.push(Message::bad_request(&m).transaction_id());
+                v.push(Message::unknown_attributes(&m, &[AttributeType::new(0x7e01)]).transaction_id());
+                if let Some(b) = Message::check_attribute_types(&m, &[], &[AttributeType::new(0x7e02)]) { v.push(b.transaction_id()); }
+            }
+            if v.iter().any(|x| *x != tid) { vec![u128::MAX] } else { v.into_iter().map(|x| x.into()).collect() }
+        }).unwrap_or_else(|_| vec![u128::MAX]);
         let p: Vec<u8> = match (parsed, hparsed) {
-            (Some(a), Some(b)) if a == b && a >> 96 == 0 => a.to_be_bytes()[4..].to_vec(),
+            (Some(a), Some(b)) if a == b && a >> 96 == 0 && routes.iter().all(|r| *r == a) => a.to_be_bytes()[4..].to_vec(),
             _ => vec![],
         };
         writeln!(out, "{}", json!({"k": "tid", "wide": w.to_be_bytes().to_vec(), "hdr": hdr,
